@@ -1,10 +1,13 @@
 package props
 
 import (
+	"bufio"
 	"fmt"
 	"io"
+	"net"
 	"strings"
 	"testing"
+	"time"
 
 	"github.com/emersion/go-smtp"
 	"pgregory.net/rapid"
@@ -24,7 +27,16 @@ type c18Txn struct {
 	Rcpts    []c18Rcpt `json:"rcpts"`
 	Callback bool      `json:"callback"` // LMTPData with callback, else Data
 	Reset    bool      `json:"reset"`    // Client.Reset after the transaction
+	// SlowAt > 0: the delivery to the SlowAt-th accepted recipient (1-based)
+	// is slow: its status is held back until the client waits for it, then
+	// for SlowMs more. While Close runs the client's CommandTimeout is a
+	// fraction of that (the replies after the end of the message are covered
+	// by SubmissionTimeout, which stays at its 12 minutes). Wall-clock time is
+	// only the trigger: a correct client has no short timer armed.
+	SlowAt int `json:"slow_at,omitempty"`
 }
+
+const c18SlowMs = 60
 
 type c18Case struct {
 	Txns []c18Txn `json:"txns"`
@@ -50,7 +62,7 @@ func c18Run(c c18Case) Verdict {
 			if !rc.Deliver {
 				d = harness.Decision{Kind: "smtp", Code: 552, Enh: [3]int{5, 2, 2}, Msg: "verdict-for-" + addr}
 			}
-			plan.Status = append(plan.Status, harness.StatusCall{Rcpt: addr, D: d, AfterRead: true})
+			plan.Status = append(plan.Status, harness.StatusCall{Rcpt: addr, D: d, AfterRead: true, Gate: tx.SlowAt == len(plan.Status)+1})
 		}
 		if len(plan.Status) > 0 {
 			// a transaction without accepted recipients never reaches DATA
@@ -115,7 +127,11 @@ func c18Run(c c18Case) Verdict {
 				return
 			}
 			fmt.Fprintf(wc, "Subject: t%d\r\n\r\nbody\r\n", ti)
+			if tx.SlowAt > 0 {
+				cl.CommandTimeout = c18SlowMs * time.Millisecond / 4
+			}
 			obs[ti].closeErr = wc.Close()
+			cl.CommandTimeout = 5 * time.Minute
 			obs[ti].reached = true
 			if tx.Reset {
 				if err := cl.Reset(); err != nil {
@@ -130,21 +146,37 @@ func c18Run(c c18Case) Verdict {
 	}()
 	finished := false
 	stuck := false
-	ok := r.Hub.WaitUntil(func() bool {
-		select {
-		case <-done:
-			finished = true
-			return true
-		default:
+	slowed := 0
+	var ok bool
+	for {
+		atGate := false
+		ok = r.Hub.WaitUntil(func() bool {
+			select {
+			case <-done:
+				finished = true
+				return true
+			default:
+			}
+			// both ends wait for each other with nothing in flight: nobody will
+			// ever write again (only the client's 12-minute timeout would end it)
+			if w.S.BlockedInReadLocked() && w.C.BlockedInReadLocked() {
+				stuck = true
+				return true
+			}
+			// a slow delivery is being waited for by the client
+			if r.B.AtGateLocked() && w.C.BlockedInReadLocked() {
+				atGate = true
+				return true
+			}
+			return false
+		}, harness.Watchdog)
+		if !ok || !atGate || finished || stuck {
+			break
 		}
-		// both ends wait for each other with nothing in flight: nobody will
-		// ever write again (only the client's 12-minute timeout would end it)
-		if w.S.BlockedInReadLocked() && w.C.BlockedInReadLocked() {
-			stuck = true
-			return true
-		}
-		return false
-	}, harness.Watchdog)
+		time.Sleep(c18SlowMs * time.Millisecond)
+		slowed++
+		r.B.ReleaseArrived()
+	}
 	if !finished {
 		w.Abort()
 		<-done
@@ -175,6 +207,9 @@ func c18Run(c c18Case) Verdict {
 	v.NonTrivial = multi || refusedAtRcpt || mixed
 	if multi {
 		v.Classes = append(v.Classes, "several_transactions")
+	}
+	if slowed > 0 {
+		v.Classes = append(v.Classes, "slow_delivery_to_a_recipient")
 	}
 	if refusedAtRcpt {
 		v.Classes = append(v.Classes, "recipient_refused_at_rcpt")
@@ -261,15 +296,258 @@ func fmtStatuses(ss []c18Status) string {
 	return "[" + strings.Join(parts, ", ") + "]"
 }
 
-var c18Sub *subCheck[c18Case]
+// ---- a scripted LMTP peer: positive RCPT replies other than 250 ----
+
+type c18PeerRcpt struct {
+	Code    int  `json:"code"`    // reply to RCPT: 250, 251 (will forward), 550, 452
+	Deliver bool `json:"deliver"` // positive status after DATA
+}
+
+type c18PeerCase struct {
+	Txns     [][]c18PeerRcpt `json:"txns"`
+	Callback bool            `json:"callback"`
+}
+
+func c18PeerServe(conn net.Conn, c c18PeerCase) {
+	defer conn.Close()
+	br := bufio.NewReader(conn)
+	io.WriteString(conn, "220 peer LMTP\r\n")
+	ti, ri := -1, 0
+	var accepted []string
+	var verdicts []bool
+	for {
+		line, err := br.ReadString('\n')
+		if err != nil {
+			return
+		}
+		up := strings.ToUpper(strings.TrimRight(line, "\r\n"))
+		switch {
+		case strings.HasPrefix(up, "LHLO"):
+			io.WriteString(conn, "250-peer\r\n250-PIPELINING\r\n250 ENHANCEDSTATUSCODES\r\n")
+		case strings.HasPrefix(up, "MAIL"):
+			ti++
+			ri, accepted, verdicts = 0, nil, nil
+			io.WriteString(conn, "250 2.1.0 sender ok\r\n")
+		case strings.HasPrefix(up, "RCPT"):
+			code := 550
+			var rc c18PeerRcpt
+			if ti >= 0 && ti < len(c.Txns) && ri < len(c.Txns[ti]) {
+				rc = c.Txns[ti][ri]
+				code = rc.Code
+			}
+			addr := fmt.Sprintf("t%dr%d@x", ti, ri)
+			ri++
+			switch code {
+			case 250:
+				accepted, verdicts = append(accepted, addr), append(verdicts, rc.Deliver)
+				io.WriteString(conn, "250 2.1.5 recipient ok\r\n")
+			case 251:
+				accepted, verdicts = append(accepted, addr), append(verdicts, rc.Deliver)
+				io.WriteString(conn, "251 2.1.5 user not local; will forward\r\n")
+			case 452:
+				io.WriteString(conn, "452 4.5.3 too many recipients\r\n")
+			default:
+				io.WriteString(conn, "550 5.1.1 no such user\r\n")
+			}
+		case up == "DATA":
+			if len(accepted) == 0 {
+				io.WriteString(conn, "503 5.5.1 no valid recipients\r\n")
+				continue
+			}
+			io.WriteString(conn, "354 go ahead\r\n")
+			for {
+				l, err := br.ReadString('\n')
+				if err != nil {
+					return
+				}
+				if l == ".\r\n" {
+					break
+				}
+			}
+			for i, a := range accepted {
+				if verdicts[i] {
+					io.WriteString(conn, "250 2.1.5 <"+a+"> delivered\r\n")
+				} else {
+					io.WriteString(conn, "552 5.2.2 <"+a+"> verdict-for-"+a+"\r\n")
+				}
+			}
+			accepted, verdicts = nil, nil
+		case up == "RSET", up == "NOOP":
+			io.WriteString(conn, "250 2.0.0 ok\r\n")
+		case up == "QUIT":
+			io.WriteString(conn, "221 2.0.0 bye\r\n")
+			return
+		default:
+			io.WriteString(conn, "500 5.5.1 what\r\n")
+		}
+	}
+}
+
+func c18PeerRun(c c18PeerCase) Verdict {
+	hub := harness.NewHub()
+	clEnd, svEnd := harness.Pair(hub)
+	served := make(chan struct{})
+	go func() { defer close(served); c18PeerServe(svEnd, c) }()
+	cl := smtp.NewClientLMTP(clEnd)
+	type txnObs struct {
+		statuses []c18Status
+		closeErr error
+		rcptErrs []error
+		reached  bool
+	}
+	obs := make([]txnObs, len(c.Txns))
+	var setupErr error
+	done := make(chan struct{})
+	go func() {
+		defer func() {
+			hub.Lock()
+			close(done)
+			hub.Unlock()
+			hub.Broadcast()
+		}()
+		for ti, tx := range c.Txns {
+			if err := cl.Mail(fmt.Sprintf("s%d@x", ti), nil); err != nil {
+				setupErr = fmt.Errorf("txn %d Mail: %w", ti, err)
+				return
+			}
+			any := false
+			for ri, rc := range tx {
+				err := cl.Rcpt(fmt.Sprintf("t%dr%d@x", ti, ri), nil)
+				obs[ti].rcptErrs = append(obs[ti].rcptErrs, err)
+				any = any || rc.Code/10 == 25
+			}
+			if !any {
+				if err := cl.Reset(); err != nil {
+					setupErr = fmt.Errorf("txn %d Reset: %w", ti, err)
+					return
+				}
+				obs[ti].reached = true
+				continue
+			}
+			var wc io.WriteCloser
+			var err error
+			if c.Callback {
+				t := ti
+				wc, err = cl.LMTPData(func(rcpt string, status *smtp.SMTPError) {
+					obs[t].statuses = append(obs[t].statuses, c18Status{rcpt, status})
+				})
+			} else {
+				wc, err = cl.Data()
+			}
+			if err != nil {
+				setupErr = fmt.Errorf("txn %d DATA: %w", ti, err)
+				return
+			}
+			fmt.Fprintf(wc, "Subject: t%d\r\n\r\nbody\r\n", ti)
+			obs[ti].closeErr = wc.Close()
+			obs[ti].reached = true
+		}
+		if err := cl.Noop(); err != nil {
+			setupErr = fmt.Errorf("final Noop: %w", err)
+		}
+	}()
+	finished, stuck := false, false
+	ok := hub.WaitUntil(func() bool {
+		select {
+		case <-done:
+			finished = true
+			return true
+		default:
+		}
+		if svEnd.BlockedInReadLocked() && clEnd.BlockedInReadLocked() {
+			stuck = true
+			return true
+		}
+		return false
+	}, harness.Watchdog)
+	if !finished {
+		clEnd.Abort()
+		<-done
+	}
+	cl.Close()
+	clEnd.Close()
+	<-served
+	v := Verdict{}
+	for _, tx := range c.Txns {
+		for _, rc := range tx {
+			if rc.Code == 251 {
+				v.NonTrivial = true
+			}
+		}
+	}
+	if v.NonTrivial {
+		v.Classes = append(v.Classes, "recipient_accepted_with_251")
+	}
+	if len(c.Txns) >= 2 {
+		v.Classes = append(v.Classes, "several_transactions")
+	}
+	if stuck {
+		return failf("close-hangs", "against the scripted peer a client call waits for a reply that will never come (peer idle, client blocked reading); case %+v", c)
+	}
+	if !ok {
+		return Verdict{Inconclusive: "watchdog in client run (peer)"}
+	}
+	if setupErr != nil {
+		return failf("client-call", "against the scripted peer a client call failed unexpectedly: %v", setupErr)
+	}
+	for ti, tx := range c.Txns {
+		var want []c18Status
+		anyNeg := false
+		for ri, rc := range tx {
+			addr := fmt.Sprintf("t%dr%d@x", ti, ri)
+			positive := rc.Code/10 == 25
+			if positive != (obs[ti].rcptErrs[ri] == nil) {
+				return failf("rcpt-result", "transaction %d: RCPT %d was answered %d but Rcpt returned %v", ti, ri, rc.Code, obs[ti].rcptErrs[ri])
+			}
+			if !positive {
+				continue
+			}
+			if rc.Deliver {
+				want = append(want, c18Status{addr, nil})
+			} else {
+				anyNeg = true
+				want = append(want, c18Status{addr, &smtp.SMTPError{Code: 552, Message: "verdict-for-" + addr}})
+			}
+		}
+		if len(want) == 0 {
+			continue
+		}
+		got := obs[ti].statuses
+		if c.Callback {
+			if len(got) != len(want) {
+				return failf("callback-count", "transaction %d: callback fired %d times (%s), expected %d (%s)", ti, len(got), fmtStatuses(got), len(want), fmtStatuses(want))
+			}
+			for i := range want {
+				g, wv := got[i], want[i]
+				if g.rcpt != wv.rcpt || (g.err == nil) != (wv.err == nil) || (g.err != nil && !strings.Contains(g.err.Message, wv.err.Message)) {
+					return failf("callback-status", "transaction %d: callback %d reports %s, expected %s", ti, i, fmtStatuses([]c18Status{g}), fmtStatuses([]c18Status{wv}))
+				}
+			}
+			if obs[ti].closeErr != nil {
+				return failf("close-result", "transaction %d: Close returned %v although all replies were read", ti, obs[ti].closeErr)
+			}
+		} else if anyNeg != (obs[ti].closeErr != nil) {
+			return failf("close-result", "transaction %d (no callback): a refusal after DATA = %v, Close returned %v", ti, anyNeg, obs[ti].closeErr)
+		}
+	}
+	return v
+}
+
+var (
+	c18Sub  *subCheck[c18Case]
+	c18Peer *subCheck[c18PeerCase]
+)
 
 func init() {
-	registrars = append(registrars, func() { c18Sub = newSub("C18", "rapid", c18Run) })
+	registrars = append(registrars, func() {
+		c18Sub = newSub("C18", "rapid", c18Run)
+		c18Peer = newSub("C18", "peer", c18PeerRun)
+	})
 }
 
 func TestC18(t *testing.T) {
 	registerAll()
-	st.Rule = "cases = 1-3 consecutive LMTP transactions on one go-smtp client connection against a go-smtp LMTP server, each with 1-3 recipients (some refused at RCPT), a per-recipient verdict vector, LMTPData with callback or Data without, optional Reset in between; oracle = the scripted verdicts; hang detection is state-based (both ends blocked reading with nothing in flight); non-trivial = >= 2 transactions OR a recipient refused at RCPT OR a mixed verdict vector; distinct = hash of the whole case"
+	st.Rule = "cases = 1-3 consecutive LMTP transactions on one go-smtp client connection against a go-smtp LMTP server, each with 1-3 recipients (some refused at RCPT), a per-recipient verdict vector, LMTPData with callback or Data without, optional Reset in between, optionally a slow delivery to one recipient (its reply arrives later than CommandTimeout after the previous one); oracle = the scripted verdicts; second part: the same client against a scripted LMTP peer that accepts recipients with 250 or 251 and refuses with 550/452; hang detection is state-based (both ends blocked reading with nothing in flight); non-trivial = >= 2 transactions OR a recipient refused at RCPT OR a mixed verdict vector; distinct = hash of the whole case"
 	if !regress(t, "C18") {
 		return
 	}
@@ -279,6 +557,24 @@ func TestC18(t *testing.T) {
 			tx := c18Txn{Callback: rapid.Bool().Draw(rt, "callback"), Reset: rapid.IntRange(0, 3).Draw(rt, "reset") == 0}
 			for j, m := 0, rapid.IntRange(1, 3).Draw(rt, "nrcpt"); j < m; j++ {
 				tx.Rcpts = append(tx.Rcpts, c18Rcpt{Accept: rapid.IntRange(0, 3).Draw(rt, "accept") != 0, Deliver: rapid.Bool().Draw(rt, "deliver")})
+			}
+			// a few slow deliveries (each costs its pause in wall-clock time)
+			if rapid.IntRange(0, 999).Draw(rt, "slow")%30 == 7 {
+				tx.SlowAt = rapid.IntRange(1, 3).Draw(rt, "slow_at")
+			}
+			c.Txns = append(c.Txns, tx)
+		}
+		return c
+	})
+	if t.Failed() {
+		return
+	}
+	c18Peer.rapidCheck(t, pickTier(1500, 12000), func(rt *rapid.T) c18PeerCase {
+		c := c18PeerCase{Callback: rapid.IntRange(0, 3).Draw(rt, "callback") != 0}
+		for i, n := 0, rapid.IntRange(1, 3).Draw(rt, "ntxn"); i < n; i++ {
+			var tx []c18PeerRcpt
+			for j, m := 0, rapid.IntRange(1, 3).Draw(rt, "nrcpt"); j < m; j++ {
+				tx = append(tx, c18PeerRcpt{Code: rapid.SampledFrom([]int{250, 250, 251, 251, 550, 452}).Draw(rt, "code"), Deliver: rapid.Bool().Draw(rt, "deliver")})
 			}
 			c.Txns = append(c.Txns, tx)
 		}
